@@ -1071,3 +1071,45 @@ def umi_eq3_replay(inputs, clause):
 
 
 umi_eq3.replay = umi_eq3_replay
+
+
+# ------------------------------------------------------------------------------ the assignment block on a buffer of two molecules (bounded)
+# the loop contracts above fix the shape of the search loop; this variant runs whatever the block does on a concrete buffer of
+# two molecules that may both accept the fragment (UMIs within distance 1 of a third one): it must still land in exactly one
+def it_self_two(pooling):
+    def it_self(eng, name):
+        mols = [Obj('MolRef', {'idx': named(INT, 'molecule_0')}), Obj('MolRef', {'idx': named(INT, 'molecule_1')})]
+        eng.spec_env['MOLS0'] = list(mols)
+        eng.spec_env['MOLS'] = mols
+        frag_ = Obj('FragStub', {'match_hash': 'mh'})
+        frag_.vc_immutable = True
+        eng.spec_env['FRAGMENT'] = frag_
+        attrs = {'pooling_method': pooling, 'molecule_class': eng.spec_env['NEWMOL'], 'molecule_class_args': {},
+                 'yield_overflow': named(BOOL, 'yield_overflow'), 'deleted_fragments': named(INT, 'deleted'),
+                 'perform_allele_clustering': False}
+        if pooling == 0:
+            attrs['molecules'] = mols
+        else:
+            attrs['molecules_per_cell'] = {'mh': mols}
+        return Obj('MoleculeIterator', attrs, info=eng.loader.classref(FI, 'MoleculeIterator'))
+    return it_self
+
+
+def assign_two_unit(pooling):
+    return Contract(
+        PROP, FI + '::MoleculeIterator.__iter__', name='MoleculeIterator.assign_fragment[pooling_method=%d, buffer of two molecules]' % pooling,
+        block=assign_block,
+        params={'self': it_self_two(pooling), 'fragment': lambda e, n: e.spec_env['FRAGMENT']},
+        setup=assign_setup_for(False),
+        yields='checks-only',
+        ensures={'fragment_is_placed_in_exactly_one_molecule': 'OVERFLOWED or len(GHOST["joined"]) + len(GHOST["created"]) == 1',
+                 'a_new_molecule_is_founded_only_if_no_buffered_molecule_accepts':
+                     'OVERFLOWED or implies(len(GHOST["created"]) == 1, len(GHOST["joined"]) == 0)',
+                 'buffered_molecules_stay': 'len(MOLS) >= 2 and (MOLS[0] is MOLS0[0]) and (MOLS[1] is MOLS0[1])'},
+        raises={},
+        bounded='a buffer of two molecules, each of which may accept the fragment',
+        assumptions=['Molecule.add_fragment: an arbitrary acceptance relation (hook), OverflowError possible'],
+    )
+
+
+UNITS += [assign_two_unit(0), assign_two_unit(1)]
